@@ -248,6 +248,63 @@ def k2_dataframe(k_assert: int, k_set1: int, f1: bool, k_set2: int, f2: bool, sa
     return True
 
 
+class _NoMsgs:
+    lines = []
+
+    def message(self):
+        return ''
+
+
+def k2_ondisk_kinds(method: int, k_assert: int, k_set: int, flag: bool) -> bool:
+    """
+    pre: 0 <= method < 4 and 0 <= k_assert < 4 and -1 <= k_set < 4
+    post: __return__
+    """
+    # the four on-disk DataFrame assertions (current and legacy names, one file and several) consult the
+    # regeneration table under the kind they were given: regeneration writes the reference from the actual file
+    # and compares nothing, normal mode compares and writes nothing
+    method, k_assert = _c(method, 4), _c(k_assert, 4)
+    k_set = _c(k_set + 1, 5) - 1
+    fs, r, fails = _mk({})
+    calls = []
+
+    class FakePandas:
+        def _write_reference_dataframe_from_file(self, actual, expected):
+            calls.append(('write', [actual], [expected]))
+
+        def _write_reference_dataframes_from_files(self, actuals, expecteds):
+            calls.append(('write', list(actuals), list(expecteds)))
+
+        def check_serialized_dataframe(self, actual, expected, **kw):
+            calls.append(('check', [actual], [expected]))
+            return (0, _NoMsgs())
+
+        def check_serialized_dataframes(self, actuals, expecteds, **kw):
+            calls.append(('check', list(actuals), list(expecteds)))
+            return (0, _NoMsgs())
+    r.pandas = FakePandas()
+    table = {}
+    try:
+        if k_set >= 0:
+            ReferenceTest.set_regeneration(KINDS4[k_set], flag)
+            table[KINDS4[k_set]] = flag
+        kind = KINDS4[k_assert]
+        ref = '/ref/r.csv'
+        if method == 0:
+            r.assertOnDiskDataFrameCorrect('/out/a.csv', ref, kind=kind)
+        elif method == 1:
+            r.assertCSVFileCorrect('/out/a.csv', ref, kind=kind)
+        elif method == 2:
+            r.assertOnDiskDataFramesCorrect(['/out/a.csv'], [ref], kind=kind)
+        else:
+            r.assertCSVFilesCorrect(['/out/a.csv'], [ref], kind=kind)
+    finally:
+        ReferenceTest.regenerate = {}
+    key = 'csv' if kind == 'parquet' else kind          # ("parquet" is filed under csv by these methods)
+    want_regen = table[key] if key in table else table.get(None, False)
+    return calls == [('write' if want_regen else 'check', ['/out/a.csv'], ['/ref/r.csv'])]
+
+
 def k3_regenerate_then_pass(content: str, which: int) -> bool:
     """
     pre: len(content) <= P['nc'] and 0 <= which < 3
@@ -365,6 +422,12 @@ def _obs():
                       'kind of the assertion and of two set_regeneration calls over {None, csv, graph, <no call>}, '
                       'flags symbolic; actual equal to / different from the reference; one or two assertions',
                       param={'which': which}, timeout=600, stubs=['fakefs']))
+    obs.append(Ob('K2', 'k2_ondisk_kinds', 'assertOnDiskDataFrameCorrect / assertCSVFileCorrect and their plural forms '
+                  'regenerate exactly when the table says so for the kind they were given (reference written from the '
+                  'actual file, nothing compared), and otherwise compare and write nothing',
+                  '4 methods x kind of the assertion x one set_regeneration call over {None, csv, graph, parquet, <no '
+                  'call>} with a symbolic flag', timeout=300,
+                  stubs=['PandasComparison -> recorder of write-reference / check calls']))
     for ext in ('parquet', 'csv'):
         obs.append(Ob('K2', 'k2_dataframe', 'assertDataFrameCorrect writes its reference exactly when the regeneration '
                       'table says so for its kind - the label "parquet" being a kind like any other -, also when the '
